@@ -108,6 +108,23 @@ extern "C" void harness_c21_pow_div()
     }
     VERIF_END();
 }
+// higher powers (binary exponentiation with several set bits in the exponent)
+extern "C" void harness_c21_pow_high()
+{
+    RCP<const Symbol> x = symbol("x");
+    long B = verif_param("B", 1);
+    // degree-7 polynomials in a symbolic coefficient through 36 chained digit extractions are beyond the solvers: here the
+    // coefficients are one path per value (param enum2) and the exponent is what is being covered
+    Vec a = second_vec("a", 2, -B, B);
+    RCP<const UIntPoly> p = UIntPoly::from_vec(x, a);
+    static const unsigned KS[] = {7, 6, 5, 11, 13};
+    unsigned k = KS[verif_choice("k", verif_param("nk", 3))];
+    Vec e = {integer_class(1)};
+    for (unsigned i = 0; i < k; i++)
+        e = conv(e, a);
+    assert_coeffs(*pow_upoly(*p, k), e, "power coefficient equals repeated convolution");
+    VERIF_END();
+}
 // exact division with a three-term divisor: d | d*m always, also when the product has fewer terms than d (cancellation)
 extern "C" void harness_c21_divides()
 {
